@@ -52,6 +52,21 @@ def insertStr (s : String) : List String → List String
   | [] => [s]
   | x :: xs => if s < x then s :: x :: xs else x :: insertStr s xs
 
+def insertSeg (s : Bytes × Int) : List (Bytes × Int) → List (Bytes × Int)
+  | [] => [s]
+  | x :: xs => if s.2 < x.2 then s :: x :: xs else x :: insertSeg s xs
+
+def insertInt (s : Int) : List Int → List Int
+  | [] => [s]
+  | x :: xs => if s < x then s :: x :: xs else x :: insertInt s xs
+
+/-- files column of `plist`: `<relHex>@<startUs>@<ntpNs>,…` (the NTP only matters to the implementation) -/
+def parseFiles3 (col : String) : Option (List (Bytes × Int)) :=
+  (col.splitOn ",").mapM fun e =>
+    match e.splitOn "@" with
+    | [h, us, _] => do pure ((← Hex.decode h), (← us.toInt?))
+    | _ => none
+
 def absOf (rel : Bytes) : Bytes := cwd ++ 47 :: rel
 
 /-- start instant cut to what the file name can carry. -/
@@ -85,6 +100,65 @@ def step (d : D) (op impl : String) : D × DrvOut :=
             | some y => s!"FAIL listing reports another start instant than the one the segment was written for: {Hex.encode y.1}"
             | none => "ok"
         | none => "FAIL unparsable implementation answer"
+      (d, { model, spec })
+    | _, _, _ => (d, { model := "bad-op" })
+  | ["at", _zone, fmtH, nameH, qS, filesS, "|", calS] =>
+    match Hex.decode fmtH, Hex.decode nameH, qS.toInt?, parseFiles filesS with
+    | some fmt, some name, some q, some files =>
+      let cal := parseCal calS
+      let rp := C06.abs cwd (substPath fmt name ++ extMp4)
+      let toks := tokenize rp
+      let hasF := hasKind .f toks
+      let found : List (Bytes × Option Int) := files.filterMap fun x =>
+        if C30.inWalk (commonPath rp) (absOf x.1) then
+          (decode toks (absOf x.1)).map fun m => (x.1, calLookup cal (decodedStart m.caps))
+        else none
+      let model :=
+        if found.any (fun x => x.2.isNone) then "-"
+        else
+          let sorted := (found.map fun x => (x.1, x.2.getD 0)).foldr insertSeg []
+          match selectFrom sorted q with
+          | none => "none"
+          | some l => ",".intercalate (l.map fun x => s!"{Hex.encode x.1}@{x.2}")
+      let spec :=
+        -- the segment whose listed start instant is exactly the bound must be the first one returned
+        match files.find? (fun x => cut hasF x.2 == q) with
+        | none => "ok"
+        | some x =>
+          match (if impl == "none" then some [] else parseFiles impl) with
+          | some l =>
+            match l.head? with
+            | some y => if y.1 == x.1 then "ok" else
+                s!"FAIL playback bound = listed start of {Hex.encode x.1} but the first segment selected is {Hex.encode y.1}"
+            | none => s!"FAIL playback bound = listed start of {Hex.encode x.1} but no segment is selected"
+          | none => "FAIL unparsable implementation answer"
+      (d, { model, spec })
+    | _, _, _, _ => (d, { model := "bad-op" })
+  | ["plist", _zone, fmtH, nameH, filesS, "|", calS] =>
+    match Hex.decode fmtH, Hex.decode nameH, parseFiles3 filesS with
+    | some fmt, some name, some files =>
+      let cal := parseCal calS
+      let rp := C06.abs cwd (substPath fmt name ++ extMp4)
+      let toks := tokenize rp
+      let hasF := hasKind .f toks
+      let found : List (Option Int) := files.filterMap fun x =>
+        if C30.inWalk (commonPath rp) (absOf x.1) then
+          (decode toks (absOf x.1)).map fun m => calLookup cal (decodedStart m.caps)
+        else none
+      let fmtNs (l : List Int) : String :=
+        if l.isEmpty then "-" else ",".intercalate ((l.foldr insertInt []).map fun us => s!"{us * 1000}")
+      let model :=
+        if found.any (·.isNone) then "-" else
+          let m := fmtNs (found.map (·.getD 0))
+          s!"{m} {m}"
+      let want := fmtNs (files.map fun x => cut hasF x.2)
+      let spec :=
+        match words impl with
+        | [pb, ap] =>
+          if pb != ap then "FAIL playback list and recordings list report different start instants for the same segments"
+          else if pb != want then "FAIL listings report other start instants than the ones the segments were written for"
+          else "ok"
+        | _ => "FAIL implementation panicked or gave an unparsable answer"
       (d, { model, spec })
     | _, _, _ => (d, { model := "bad-op" })
   | "del" :: _zone :: fmtH :: nameH :: _strH :: tgS :: filesS :: "|" :: rest =>
